@@ -7,6 +7,29 @@ import re
 
 ROOT = os.path.dirname(os.path.dirname(os.path.abspath(__file__)))
 NOTES = {
+    'C03_r9m1_tidy_up_in_context_add_resource_src_asphalt': 'fixed scenario `failed_adds_of_unusual_shapes_change_nothing` (a class that cannot be hashed after an ordinary type)',
+    'C03_r9m2_hardening_of_the_debug_log_call_in': "the same scenario: a partial / callable object as factory callback with explicit types through a component's view",
+    'C04_r9m2_get_resource_nowait_is_made_to_honour_its_docstring': 'oracle: `AsyncResourceError` for a pair that already resolves (before: correspondence only)',
+    'C06_r9m1_context_add_resource_factory_src_asphalt_core__context_py': 'fixed scenario `partly_shadowed_factory_releases_its_waiter`',
+    'C06_r9m2_context_get_resource_and_context_get_resource_nowait_src_asp': 'the scenario `factories_waiting_on_each_other_complete` also run for C06',
+    'C07_r9m1__start_component_src_asphalt_core__component_py_was': 'component failures are falsy exceptions (`__len__` = 0)',
+    'C07_r9m2_context_add_resource_src_asphalt_core__context_py': 'fixed scenario `refused_resource_of_a_failed_start_leaves_no_callback`',
+    'C08_r9m1_context__run_teardown_callbacks__context_py_the_loop_every': 'fixed scenario `registration_during_a_service_tasks_stop`',
+    'C08_r9m2_in_finalize_service_task_context_start_service_task__context': 'synchronous teardown actions that return a value (True, 0, a string)',
+    'C10_r9m1_src_asphalt_core__event_py_class_event': 'fixed scenario `queued_event_keeps_its_source`',
+    'C10_r9m2_src_asphalt_core__event_py_the_default': 'oracle for queues of length zero (`overflow-delivered`, the minimum number of warnings); before: correspondence only',
+    'C11_r9m1_signal___get___src_asphalt_core__event_py': 'an owner class whose instances are not equal to themselves',
+    'C11_r9m2_two_cooperating_edits_in_src_asphalt_core': "a runner crash inside asphalt's code is a failing input for the signal checks too (before: broken correspondence)",
+    'C12_r9m2_src_asphalt_core__context_py_context___aenter__': 'fixed scenario `closing_anothers_context_leaves_the_closers_own_alone`',
+    'C13_r9m1_the_inline_lifecycle_guards_self__ensure_state_as': 'fixed scenario `lookup_made_inside_awaited_after_the_block_is_refused`',
+    'C14_r9m1_component_add_component__component_py_now_resolves_a': 'fixed scenario `overridden_default_types_need_not_exist`',
+    'C15_r9m1__context_context_add_teardown_callback__run_teardown_callbac': 'callbacks that are bound methods of objects only the teardown stack refers to',
+    'C15_r9m2__context_context__run_teardown_callbacks_be_lenient_towards_': 'raising callbacks raise a `TypeError` subclass after their work and accept a call without argument',
+    'C17_r9m1_merge_config_src_asphalt_core__utils_py_delegates': 'oracle: an earlier result passed in again as `original` is left as it was (chained merges)',
+    'C19_r9m1_inject_s_call_time_resolution_resolve_resources_and': 'fixed scenario `injected_lookups_happen_in_signature_order` (before: correspondence only)',
+    'C10_full_queue_precheck_breaks_handoff': 'oracle: a consumer of a zero-length queue parked in `__anext__` takes the event (`lost-event`); before: correspondence only',
+    'C16_r4m1_in_src_asphalt_core__cli_py_run': 'override sequences in which the same key occurs twice with a key below it in between; before: correspondence only',
+    'C03_r3m3_context_add_resource_factory_checks_for_an_existing_factory': 'oracle: a second factory for a pair conflicts (shadow table of factories per context); before: correspondence only',
     'C02_r8m2_context_get_resources_src_asphalt_core__context_py': 'fixed scenario `generic_alias_types_are_found_by_every_lookup` (types that are equal but not identical objects)',
     'C03_r8m1_tidy_up_of_the_types_normalisation_at': 'oracle `invalid-type-accepted` (before: correspondence only)',
     'C03_r8m2_avoid_a_copy_optimisation_in_src_asphalt': 'oracle: a factory inherited when the context was created conflicts too (before: correspondence only)',
